@@ -164,6 +164,8 @@ func toNDJSON(evs []event) []byte {
 	return []byte(sb.String())
 }
 
+var reTraceI = regexp.MustCompile(`(?m)^\s*(?:/\\ )?i = (\d+)`)
+
 var reHW = regexp.MustCompile(`<<"@HW", (\d+), (\d+)>>`)
 
 // traceVerdict is the outcome of one TLC trace validation.
